@@ -1075,6 +1075,8 @@ func genCall(r *Rng, depth int) (native, prebound, def string) {
 		"d_" + name + "(" + strings.Join(da, "; ") + ")"
 }
 
+func budgetHit(s string) bool { return strings.Contains(s, "step budget exhausted") }
+
 func runCustomProgram(src string, opts []gojq.CompilerOption, input string) string {
 	var v any
 	dec := json.NewDecoder(strings.NewReader(input))
@@ -1118,6 +1120,7 @@ func runCustom(c *Ctx, n int) {
 	defs := customDefs()
 	r := c.Rng
 	diffs, family := 0, 0
+	skipped, skippedOneSided := 0, 0
 	subst := func(ctxt, f, g string) string {
 		return strings.ReplaceAll(strings.ReplaceAll(ctxt, "F", f), "G", g)
 	}
@@ -1140,12 +1143,27 @@ func runCustom(c *Ctx, n int) {
 			b = strings.ReplaceAll(b, "d_", "")
 			c.Nlines++
 			c.Count("custom")
+			// the harness's own step budget ran out on either side: inconclusive, never a failing input
+			if budgetHit(a) || budgetHit(b) {
+				skipped++
+				if budgetHit(a) != budgetHit(b) {
+					skippedOneSided++
+				}
+				c.Count("custom:skipped-budget")
+				continue
+			}
 			if a == b {
 				continue
 			}
 			// Is the difference explained by the arguments having been evaluated in path-tracking mode?
 			// (then binding them to variables first makes the Go function agree with the definition)
-			if p := runCustomProgram(pp, opts, in); p == b {
+			p := runCustomProgram(pp, opts, in)
+			if budgetHit(p) {
+				skipped++
+				c.Count("custom:skipped-budget")
+				continue
+			}
+			if p == b {
 				family++
 				continue
 			}
@@ -1178,6 +1196,14 @@ func runCustom(c *Ctx, n int) {
 	}
 	c.Stats["custom_differences"] = diffs
 	c.Stats["custom_differences_explained_by_path_tracked_arguments"] = family
+	c.Stats["custom_skipped_budget"] = skipped
+	c.Stats["custom_skipped_budget_one_sided"] = skippedOneSided
+	// cap on the skip rate, so that a real hang of one side still shows: more than 2% (and more than 20) of the
+	// comparisons inconclusive because exactly ONE side exhausted the budget -> broken correspondence
+	if total := c.Dist["custom"]; skippedOneSided > 20 && skippedOneSided*50 > total {
+		c.Violation("harness: %d of %d native-vs-def comparisons were inconclusive because exactly one side exhausted the step budget (cap: 2%%)",
+			skippedOneSided, total)
+	}
 	// unregistered arities are "function not defined", exactly like a missing def
 	for name, ar := range customArity {
 		has := map[int]bool{}
@@ -1269,7 +1295,13 @@ func runHistory(c *Ctx, n int, exclude map[string]bool) {
 	inputs := append([]string{}, historyInputs...)
 	inputs = append(inputs, ambientInputs...)
 	diffs := 0
+	hskipped := 0
+	defer func() { c.Stats["history_skipped_budget"] = hskipped }()
 	report := func(p, in, how, fresh, warm string) {
+		if budgetHit(fresh) || budgetHit(warm) { // inconclusive
+			hskipped++
+			return
+		}
 		diffs++
 		if diffs <= 5 {
 			c.Violation("history: query `%s` on input %s gives %q on a fresh Code but %q %s (no options given)", p, in, fresh, warm, how)
@@ -1368,12 +1400,17 @@ func runArgOrder(c *Ctx) {
 		b.WriteString("];\n")
 		return b.String()
 	}
-	diffs := 0
+	diffs, argSkipped := 0, 0
 	cmp := func(native, def string) {
 		a := runCustomProgram(native, opts, "null")
 		b := runCustomProgram(def, dopts, "null")
 		c.Nlines++
 		c.Count("argorder")
+		if budgetHit(a) || budgetHit(b) {
+			c.Count("argorder:skipped-budget")
+			argSkipped++
+			return
+		}
 		if a != b {
 			diffs++
 			if diffs <= 5 {
@@ -1413,6 +1450,10 @@ func runArgOrder(c *Ctx) {
 		}
 	}
 	c.Stats["argorder_differences"] = diffs
+	c.Stats["argorder_skipped_budget"] = argSkipped
+	if argSkipped > 0 { // these programs are tiny: any budget exhaustion here is a hang
+		c.Violation("harness: %d argument-order comparisons exhausted the step budget", argSkipped)
+	}
 }
 
 func runImpl(c *Ctx) {
